@@ -945,6 +945,7 @@ func genAll(r *hx.Rng, n int, tier string) []string {
 			out = append(out, fmt.Sprintf("C10|ph|%s|%d|%s|%s|%s|+rounds%d", s, uint32(r.U64()), hx.H(b.seed), hx.H(msg), hx.H(rb), it))
 		}
 	}
+	out = append(out, genBoundary(r, tier, bd.maxIt)...)
 	rest := n - len(out)
 	if rest < 200 {
 		rest = 200
